@@ -81,6 +81,16 @@ def cases(ctx):
                     for r in range(3):
                         steps.append(["rx", REQUESTS[(r + top) % len(REQUESTS)] + "\n"])
                     yield {"version": version, "steps": steps}
+    # the public `nodes` attribute is re-bound to a new dict between requests (same content / one node fewer)
+    for version in [None, *VERSIONS]:
+        for shape in ([], [1], [1, 2, 3], [5, 200], list(range(1, 40))):
+            if not ctx.mine():
+                continue
+            count += 1
+            steps = shape_steps(rng, shape, via_wire=False)
+            steps += [["rx", REQUESTS[0] + "\n"], ["rebind"], ["rx", REQUESTS[1] + "\n"], ["rx", "77;255;0;0;17;2.0\n"], ["rebind"],
+                      ["rx", REQUESTS[0] + "\n"], ["rx", REQUESTS[2] + "\n"]]
+            yield {"version": version, "steps": steps}
     # time passes between the requests (all clocks, vf.vclock): an id that was handed out stays taken however long the
     # node that got it stays silent
     from .. import codedict
